@@ -467,7 +467,11 @@ func TestC05(t *testing.T) {
 
 	// ---- (A') compiled systems ----
 	if rec.ShardIdx() < 4 || rec.Thorough() {
-		rec.SetRapid("compiled", tierN(60, 1500))
+		nComp := tierN(60, 1500)
+		if rec.Thorough() {
+			nComp = rec.Share(nComp) // every shard takes part in the thorough tier
+		}
+		rec.SetRapid("compiled", nComp)
 		rapid.Check(t, func(rt *rapid.T) {
 			g := rapid.SampledFrom(withHints5).Draw(rt, "gadget")
 			back := rapid.SampledFrom([]string{"r1cs", "scs"}).Draw(rt, "backend")
